@@ -61,6 +61,8 @@ def attribute(problem, source, findings):
             continue
         if g.get("source_re") and not re.search(g["source_re"], source):
             continue
+        if g.get("nonascii_byte_offset") and not (problem.get("line_nonascii") and problem.get("col_is_byte_offset")):
+            continue  # outside the guard, or the implementation no longer behaves as the model predicts
         return f["id"]
     return None
 
@@ -119,6 +121,7 @@ def run(tier: str, replay: str | None = None):
     feats = {}
     value_pairs = 0
     ecases = []
+    ccases = []
     do_dispatch = False
     if replay:
         r = json.loads(Path(replay).read_text())
@@ -132,6 +135,8 @@ def run(tier: str, replay: str | None = None):
             replay_matrix = inp.get("value_matrix", False)
         if "emit_case" in inp:
             ecases = [inp["emit_case"]]
+        if "column_case" in inp:
+            ccases = [inp["column_case"]]
         do_dispatch = "dispatch" in inp
     else:
         import gen_c12
@@ -146,6 +151,8 @@ def run(tier: str, replay: str | None = None):
             feats[f"gen{i}"] = fs
         value_pairs = 12000 if tier == "quick" else 120000
         ecases = emit_cases(rng, 150 if tier == "quick" else 1500, 4 if tier == "quick" else 7)
+        alphabet = ["a", "Z", " ", "0", "\u00e4", "\u00df", "\u65e5", "\u20ac", "\U0001f600", "\u0416"]
+        ccases = ["".join(rng.choice(alphabet) for _ in range(rng.randrange(0, 12))) for _ in range(60 if tier == "quick" else 600)]
         do_dispatch = True
     vseed = locals().get("vseed", lib.seed() * 7 + 1)
 
@@ -161,6 +168,7 @@ def run(tier: str, replay: str | None = None):
         if k == 0:
             req["value_matrix"] = bool(value_pairs) and (not replay or bool(locals().get("replay_matrix")))
             req["emit_cases"] = ecases
+            req["column_cases"] = ccases
             req["dispatch"] = do_dispatch
         reqs.append(req)
     with cf.ThreadPoolExecutor(max_workers=6) as ex:
@@ -251,6 +259,17 @@ def run(tier: str, replay: str | None = None):
                     n_corr += 1
                     if decode_emit(m) != i:
                         corr.append(("Total.Emit.emit vs BaseNodeVisitor.show_error", {"emit_case": c}, i, decode_emit(m)))
+            impl_cols = outs[0].get("columns") or []
+            if ccases and impl_cols:
+                # the name follows "('" + text + "', " : 2 ASCII characters, the text, 3 ASCII characters
+                def widths(text):
+                    return [1, 1] + [len(ch.encode("utf-8")) for ch in text] + [1, 1, 1]
+                mv = lib.coq_eval("From Coq Require Import List. Import ListNotations.\nRequire Import PV.Total.Column.",
+                                  [f"reported_col {lib.clist([str(w) + '%nat' for w in widths(t)])} {len(t) + 5}%nat" for t in ccases], name="c12c")
+                for t, m, i in zip(ccases, mv, impl_cols):
+                    n_corr += 1
+                    if m != i:
+                        corr.append(("Total.Column.reported_col vs ast col_offset as reported by show_error", {"column_case": t}, i, m))
             if impl_disp:
                 classes = sorted(impl_disp["boolability"])
                 kinds = sorted(impl_disp["annotation"])
